@@ -57,9 +57,12 @@ def check_json(inp):
     want_version = spec.JSON_VERSION["3." + str(ref.minor(prefix)) if ver == "3" else ver]
     # another spelling of the same assignment is serialised first: documents must not be shared between objects
     twin = obs.classes()[ver](ref.build(prefix, m, [k for k in V.order if k in m]))
+    import copy
+    held = []
     for sort in (False, True):
         for minimal in (False, True):
-            twin.as_json(sort=sort, minimal=minimal)
+            d = twin.as_json(sort=sort, minimal=minimal)
+            held.append((sort, minimal, d, copy.deepcopy(list(d.items()))))      # the caller keeps these while other objects are serialised
     o = obs.classes()[ver](s)
     docs = {}
     fails = []
@@ -133,6 +136,24 @@ def check_json(inp):
             removed -= keys
         if removed:
             fails.append(failure("only temporal/environmental group fields removed", sorted(removed), note="sort=%s" % sort))
+    # documents handed out earlier (for another object) are the caller's: serialising this object must not have touched them
+    for sort, minimal, d, snap in held:
+        if list(d.items()) != snap:
+            diff = sorted(k for k in set(dict(snap)) | set(d) if dict(snap).get(k) != d.get(k))
+            fails.append(failure(dict((k, dict(snap).get(k)) for k in diff[:4]), dict((k, d.get(k)) for k in diff[:4]),
+                                 note="a document returned earlier by ANOTHER object's as_json(sort=%s, minimal=%s) changed while this object was serialised" % (sort, minimal)))
+            break
+    # the documented signature is as_json(sort=False, minimal=False): the same arguments by position (a signature that refuses
+    # positional arguments is not judged)
+    for args in ((True,), (True, False), (False, True), (True, True)):
+        try:
+            jp = o.as_json(*args)
+        except TypeError:
+            continue
+        jk = docs[(args[0], args[1] if len(args) > 1 else False)]
+        if list(jp.items()) != list(jk.items()):
+            fails.append(failure(list(jk)[:6], list(jp)[:6], note="as_json%r differs from as_json(sort=%s, minimal=%s)" % (args, args[0], args[1] if len(args) > 1 else False)))
+            break
     # the same object reached through the object protocol (copy, deepcopy, pickle round trip): it still is "the object built from
     # the string supplied"; ways of copying that are not available are left out
     for how in (obs.CLONERS if inp.get("copies", True) else ()):
